@@ -38,6 +38,14 @@ CHECKS = {
              text='Exploration: seeded populations (some partially filled) x state assignments (complete/incomplete/new/deleted) are saved as working-session files, reloaded in a fresh '
                   'session and saved again twice; population, states and byte stability are compared with the exchange-file baseline.',
              ref='DESIGN.md section 2 C16'),
+ 'C05': dict(tech='compiler sanitizers (gcc ASan+UBSan, fatal, one process per input) + hook step counters as logical clock over grammar-aware mutants, pathological shapes and exhaustive short parameter strings',
+             text='Exploration: conforming exchange and working-session files, token/byte mutants, stretching to 10^5, truncation, fixed pathological shapes and all parameter strings '
+                  'up to length 2 (quick) / 3 (thorough) per attribute kind are read and written by the sanitizer-built library; any report, signal or step-budget overrun is a violation.',
+             ref='DESIGN.md section 2 C05', note='red-zone sanitizers miss intra-object and non-adjacent overflows; termination is decided on instrumented loops only'),
+ 'C13': dict(tech='linear-history reference-model monitor (ordered list + dict) over operation scripts executed by a harness on the real InstMgr, plus in-code invariant hook H2 and ASan+UBSan',
+             text='Exploration, exhaustive for the bounded part: all operation sequences of length <= 4 (quick) / 5 (thorough) over a 12-symbol alphabet, owning and non-owning managers, '
+                  'plus seeded random sequences of length 50-400; the public view after every operation is compared with the model and the invariant walker runs inside every mutator.',
+             ref='DESIGN.md section 2 C13'),
  'C01': dict(tech='reference-model monitor over recorded executions (independent Part 21 parser vs. files written by the real library) under ASan+UBSan',
              text='Exploration: seeded generated schemas x conforming populations x text variants are read and written by the real p21read/STEPfile '
                   'built with ASan+UBSan from the current tree; an independent Part 21 parser compares the written population value by value with the '
